@@ -3,8 +3,8 @@ import random, warnings
 from .. import core, gen, ref
 from . import cu
 
-MODULES = ['DsdVerif.Props.C20', 'DsdVerif.Props.PyLegacy2']
-GEN_FILES = ['LegacyIupac', 'IupacTables', 'LegacyWrappers', 'PyLegacy', 'PyFuncs']
+MODULES = ['DsdVerif.Props.C20', 'DsdVerif.Props.PyLegacy2', 'DsdVerif.Props.PyLegacyReg']
+GEN_FILES = ['LegacyIupac', 'IupacTables', 'LegacyWrappers', 'PyLegacy', 'PyLegacyReg', 'PyFuncs']
 THEOREM_NAMES = ['legacy_iupac_agree_dna', 'legacy_iupac_agree_rna', 'legacy_wobble_total']
 THEOREMS = ['Dsd.C20.' + t for t in THEOREM_NAMES] + ['Dsd.C20L.' + t for t in ('legacy_canon_eq', 'legacy_rotations_spec', 'legacy_dup_iff')] + \
     ['Dsd.C20.legacy_wrappers_delegate', 'Dsd.C20F.legacy_rotate_once_eq', 'Dsd.C20F.legacy_construct_eq',
@@ -22,7 +22,10 @@ THEOREMS = ['Dsd.C20.' + t for t in THEOREM_NAMES] + ['Dsd.C20L.' + t for t in (
         # Props/PyLegacy2: every translated legacy method has its equality theorem
         'py_exterior_domains_eq', 'py_enclosed_domains_eq', 'py_kernel_string_eq', 'py_legacy_kernel_string_eq_current',
         'py_rotate_pairtable_loc_eq', 'py_legacy_rotate_pairtable_loc_sign', 'py_views_after_rotate_once', 'py_inv_new', 'py_inv_step',
-        'py_inv_run', 'py_exterior_needs_liOk', 'py_enclosed_needs_enOk')]
+        'py_inv_run', 'py_exterior_needs_liOk', 'py_enclosed_needs_enOk')] + \
+    ['Dsd.PyLegacyReg.' + t for t in (
+        # canonical_form (with the in-place rotate() cycle) and do_memorycheck as written in the source (Gen/PyLegacyReg.lean)
+        'py_do_memorycheck_eq', 'py_canonical_form_eq', 'py_canonical_form_cached', 'py_legacy_full_canon_eq', 'py_canonical_form_restores')]
 ASSUMPTIONS = [
     'the legacy SequenceConstraint tables are transcribed from the dictionaries inside its methods (Gen/LegacyIupac.lean, evaluated with '
     'T -> T and T -> U) and compared with the current tables by kernel-decided theorems',
@@ -296,6 +299,8 @@ def run(res, proof):
     # the legacy methods as translated from the working tree (Gen/PyLegacy.lean) against the real legacy objects
     from .pylegacy_stream import source_derived_pylegacy
     source_derived_pylegacy(res, proof)
+    from .pylegacyreg_stream import source_derived_pylegacyreg
+    source_derived_pylegacyreg(res, proof)
     res.sample({'seq': 'a b + a', 'sst': '(.+)'})
 
 
